@@ -41,11 +41,11 @@ type Src struct {
 
 // UDPCase is one execution of part A.
 type UDPCase struct {
-	Side     string `json:"side"`      // server-udp server-udp-libpub server-udp-play client-udp
-	AnyPort  bool   `json:"any_port"`  // client only
-	Auto     bool   `json:"auto"`      // client only: Protocol nil (automatic UDP->TCP switch armed)
-	Phase    string `json:"phase"`     // fresh (nothing received yet) | established
-	Timeouts string `json:"timeouts"`  // short | default
+	Side     string `json:"side"`     // server-udp server-udp-libpub server-udp-play client-udp
+	AnyPort  bool   `json:"any_port"` // client only
+	Auto     bool   `json:"auto"`     // client only: Protocol nil (automatic UDP->TCP switch armed)
+	Phase    string `json:"phase"`    // fresh (nothing received yet) | established
+	Timeouts string `json:"timeouts"` // short | default
 	TwoSess  bool   `json:"two_sessions"`
 	Src      *Src   `json:"src"`       // nil: reference execution
 	Content  string `json:"content"`   // garbage empty valid-rtp valid-rtcp-sr valid-rtcp-rr
@@ -97,6 +97,7 @@ const sdp2 = sdp1 + "m=audio 0 RTP/AVP 0\r\na=rtpmap:0 PCMU/8000\r\na=control:tr
 type world struct {
 	c   UDPCase
 	env *sysx.Env
+	ref *obs
 
 	dstRTP, dstRTCP int // sockets of the receiving side
 	srcRTP, srcRTCP int // negotiated source ports
@@ -636,9 +637,9 @@ func (w *world) buildClientPlay() error {
 
 // ---------------------------------------------------------------- datagrams
 
-func legitPayload(seq uint16) []byte  { return []byte{0x65, 'L', byte(seq >> 8), byte(seq)} }
-func foreignPayload(k int) []byte     { return []byte{0x65, 'F', byte(k >> 8), byte(k)} }
-func (w *world) rightIP() net.IP      { return net.IPv4(127, 0, 0, 1) }
+func legitPayload(seq uint16) []byte { return []byte{0x65, 'L', byte(seq >> 8), byte(seq)} }
+func foreignPayload(k int) []byte    { return []byte{0x65, 'F', byte(k >> 8), byte(k)} }
+func (w *world) rightIP() net.IP     { return net.IPv4(127, 0, 0, 1) }
 func ntp64(t time.Time) uint64 {
 	s := uint64(t.Unix()) + 2208988800
 	f := uint64(t.Nanosecond()) << 32 / 1000000000
@@ -907,7 +908,9 @@ func (w *world) silence(o *obs, each func(k int)) *failure {
 	return nil
 }
 
-func execUDP(c UDPCase) (o *obs, f *failure, err error) {
+// execUDP runs one execution; ref (when given) is the reference observation the snapshot is compared
+// with before the silence phase starts.
+func execUDP(c UDPCase, ref *obs) (o *obs, f *failure, err error) {
 	defer func() {
 		if r := recover(); r != nil {
 			f = &failure{"panic", fmt.Sprint(r)}
@@ -918,6 +921,7 @@ func execUDP(c UDPCase) (o *obs, f *failure, err error) {
 		return nil, nil, err
 	}
 	defer w.close()
+	w.ref = ref
 	o = &obs{}
 	defer func() { o.Trans = w.trans }()
 	if c.Phase == "established" {
@@ -951,6 +955,12 @@ func (w *world) flowIgnore(o *obs) *failure {
 		return &failure{"blocks-legitimate-traffic", err.Error()}
 	}
 	w.snapshot(o)
+	if w.ref != nil {
+		// delivered / counted datagrams are reported as such; the silence phase is for what is left
+		if f := compare(w.ref, o); f != nil {
+			return f
+		}
+	}
 	if !c.Silence {
 		return nil
 	}
@@ -999,6 +1009,9 @@ func (w *world) flowAuto(o *obs, from *net.UDPAddr) *failure {
 		return &failure{"prevents-tcp-switch", "no UDP datagram of the server was received, yet the client did not switch to TCP"}
 	}
 	o.Outcome = "switched-to-tcp"
+	if w.ref != nil {
+		return compare(w.ref, o)
+	}
 	return nil
 }
 
